@@ -113,43 +113,83 @@ def make_e_chain(params, part, nparts):
 
 def run_components(ops):
     """The same through Components.__bases__ (maps onto both underlying registries)."""
-    from zope.interface import Interface
+    from zope.interface import Interface, implementer
     from zope.interface.registry import Components
     from vlib import universe as U
     mod = U.fresh_module_name()
-    (IU,) = U.build_ifaces(((),), prefix='IU', module=mod)
+    (IU, IR, IP) = U.build_ifaces(((), (), ()), prefix='IU', module=mod)
+
+    @implementer(IR)
+    class Ob:
+        pass
+    ob = Ob()
+    facs = [type('F%d' % i, (object,), {'__init__': lambda self, o: None}) for i in range(3)]
     comps = [Components('c%d' % i) for i in range(3)]
     comps[1].__bases__ = (comps[2],)
     comps[0].__bases__ = (comps[1],)
     bases = {0: (1,), 1: (2,), 2: ()}
-    utils = {}
-    for op in ops:
+    utils, adapters = {}, {}
+    for k, op in enumerate(ops):
         if op[0] == 'setbases':
             comps[op[1]].__bases__ = tuple(comps[j] for j in op[2])
             bases[op[1]] = op[2]
-        else:
+        elif op[0] == 'util':
             utils[op[1]] = 'u%d' % op[1]
             comps[op[1]].registerUtility('u%d' % op[1], IU)
+        elif op[0] == 'adapter':
+            adapters[op[1]] = facs[op[1]]
+            comps[op[1]].registerAdapter(facs[op[1]], (IR,), IP)
+        else:
+            # Components.__init__ "is used for test cleanup as well as initialization": re-initialising the front component
+            # (nothing is based on it) drops its own registrations and gives it the bases passed, possibly the ones it had
+            i = op[1]
+            nb = bases[i] if op[2] == 'same' else op[2]
+            comps[i].__init__('c%d' % i, tuple(comps[j] for j in nb))
+            bases[i] = tuple(nb)
+            utils.pop(i, None)
+            adapters.pop(i, None)
+        hist = ops[:k + 1]
         for i in range(3):
+            if tuple(comps[i].__bases__) != tuple(comps[j] for j in bases[i]):
+                raise Violation('Components history %r: c%d.__bases__ is %r' % (hist, i, comps[i].__bases__), signature='C06:components:bases')
+            for which in ('adapters', 'utilities'):
+                got = tuple(getattr(comps[i], which).__bases__)
+                exp = tuple(getattr(comps[j], which) for j in bases[i])
+                if len(got) != len(exp) or any(a is not b for a, b in zip(got, exp)):
+                    raise Violation('Components history %r: c%d.%s.__bases__ does not mirror c%d.__bases__ = %r' % (
+                        hist, i, which, i, bases[i]), signature='C06:components:registry-bases')
             order = M.c3(i, bases)
-            exp = None
+            exp = exp_a = None
             for j in order:
-                if j in utils:
+                if j in utils and exp is None:
                     exp = utils[j]
-                    break
+                if j in adapters and exp_a is None:
+                    exp_a = adapters[j]
             got = comps[i].queryUtility(IU)
             if got != exp:
                 raise Violation('Components history %r: c%d.queryUtility gives %r, nearest registration along the current bases is %r' % (
-                    ops, i, got, exp), signature='C06:stale-ro-below-rebased-registry:components')
+                    hist, i, got, exp), signature='C06:stale-ro-below-rebased-registry:components')
+            got = comps[i].adapters.lookup((IR,), IP)
+            if got is not exp_a:
+                raise Violation('Components history %r: c%d.adapters.lookup gives %r, nearest registration along the current bases is %r' % (
+                    hist, i, got, exp_a), signature='C06:stale-ro-below-rebased-registry:components')
+            got = comps[i].queryAdapter(ob, IP)
+            if (got is None) != (exp_a is None) or (got is not None and type(got) is not exp_a):
+                raise Violation('Components history %r: c%d.queryAdapter gives %r, nearest factory along the current bases is %r' % (
+                    hist, i, got, exp_a), signature='C06:stale-ro-below-rebased-registry:components')
 
 
 def make_e_components(params, part, nparts):
-    alpha = [('setbases', 0, ()), ('setbases', 0, (1,)), ('setbases', 0, (2,)), ('setbases', 1, ()), ('setbases', 1, (2,)),
-             ('util', 0), ('util', 1), ('util', 2)]
+    alpha = [('setbases', 0, ()), ('setbases', 0, (1,)), ('setbases', 0, (2,)), ('setbases', 0, (1, 2)), ('setbases', 1, ()), ('setbases', 1, (2,)),
+             ('util', 0), ('util', 1), ('util', 2), ('adapter', 0), ('adapter', 1), ('adapter', 2),
+             ('reinit', 0, 'same'), ('reinit', 0, ()), ('reinit', 0, (2,))]
+    NA = len(alpha)
 
     def h(o1: int, o2: int, o3: int, n: int):
+        c1 = pick(o1, NA)
+        assume(c1 % nparts == part)
         ln = pick(n, 3) + 1
-        idx = [pick(o, len(alpha)) for o in (o1, o2, o3)[:ln]]
+        idx = [c1] + [pick(o, NA) for o in (o2, o3)[:ln - 1]]
         ops = tuple(alpha[i] for i in idx)
         reached(tuple(idx), dict(history=[list(map(str, o)) for o in ops]))
         native(run_components, ops)
@@ -179,8 +219,12 @@ HARNESSES = [
     Harness('e_chain_verifying', make_e_chain, kind='E', impls=('py', 'c'), tiers=_tiers('verifying'), encoded=_ENC,
             bounds='as e_chain_adapter for VerifyingAdapterRegistry (generation checking, no notifications)', oracle='as e_chain_adapter'),
     Harness('e_components', make_e_components, kind='E', impls=('py',),
-            tiers=dict(quick=dict(budget_s=60, parts=1), thorough=dict(budget_s=60, parts=1)), encoded=_ENC,
-            bounds='3 Components objects, chain; every history of <=3 ops from {Components.__bases__ reassignments, registerUtility in any}',
+            tiers=dict(quick=dict(budget_s=90, parts=5), thorough=dict(budget_s=300, parts=5)), encoded=_ENC + ['zope.interface.registry:Components.__init__'],
+            bounds='3 Components objects, chain; every history of <=3 ops from 15: Components.__bases__ reassignments (incl. two bases), '
+                   'registerUtility / registerAdapter in any, re-initialisation (Components.__init__, documented for test cleanup) of the front '
+                   'component with the same, no, or other bases; after every op bases of both underlying registries mirror the component '
+                   'bases and queryUtility / adapters.lookup / queryAdapter find the nearest registration',
+            outside='re-initialising a component other components are based on (their registries keep the old base registries)',
             oracle='nearest registration along the C3 order of the current bases'),
 ]
 
